@@ -11,7 +11,10 @@ the model of `src/base/QXmppUtils.cpp` / `QXmppUtils_p.h`
 
 Every `…Code` function models what the C++ (with Qt 5.15.8 underneath) does TODAY on every input
 string, not only on the library's own output; the lexical details were measured on the real
-functions and are re-checked by `harness/cxx/scalars.cpp` on every run.  `…Spec` functions are the
+functions and are re-checked by `harness/cxx/scalars.cpp` on every run (driver ops `scalar-*` in
+Qx/Driver/ScalarOps.lean).  Two things are taken as given and stated where they matter: strings are
+well-formed UTF-16 (no lone surrogates), and a date-time without zone designator — local time in
+Qt — is read as UTC (the harness runs with TZ=UTC).  `…Spec` functions are the
 strict lexical forms (what the XEPs / XML Schema allow).  Strings are `List Char` (code points);
 where Qt indexes UTF-16 code units (`units`) that is modelled explicitly.
 
@@ -353,8 +356,10 @@ def dtToStr (d : Dt) : Str :=
       pad2 d.minute ++ ':' :: pad2 d.second ++ (if d.msec ≠ 0 then '.' :: pad3 d.msec else []) ++ ['Z']
   else []
 
-/-- `QLocale::c().toInt` on a field of at most 4 code units (no group separator can be valid in
-so short a field): blanks trimmed at both ends, optional sign, ASCII digits -/
+/-- `QLocale::c().toInt` on the short fields of a date-time (at most 5 code units): blanks trimmed at
+both ends, optional sign, ASCII digits.  The C locale's group separator `,` is accepted by Qt only
+in well-formed groups, which needs at least `d,ddd`: impossible in the fields of up to 4 units,
+and handled by `groupedVal` for the one 5-unit field (fraction of a minute). -/
 def cToInt (s : Str) : Option Int :=
   match signMag (trim s) with
   | none => none
